@@ -182,6 +182,75 @@ def _replay_p1(param, a):
     return C04._wrap(v)
 
 
+# --------------------------------------------------------------------------------------------- P2 abort of a run
+_EXIT: List[Any] = []
+
+
+def _op_exit():
+    from vt import lib
+
+    if not _EXIT:
+        class OpExit(lib._IntOp):
+            """calls sys.exit(7) when its parameter `quit` is truthy (a node wrapping a helper that exits)"""
+
+            def _process_logic(self, data, quit: int = 0):
+                lib.LOG.append(("OpExit", {"quit": quit}))
+                if quit:
+                    raise SystemExit(7)
+                return data
+
+        _EXIT.append(OpExit)
+    return _EXIT[0]
+
+
+def _p2(two_runs: bool, q0: bool, q1: bool, traced: bool, with_run_space: bool, x0: int, x1: int, addend: int):
+    return _p2_body(2 if two_runs else 1, [q0, q1], True if traced else False, True if with_run_space else False, [x0, x1], addend)
+
+
+def _p2_body(n, quits, traced, with_run_space, xs, addend):
+    """a run that dies with SystemExit: the launch must not report success (exit 0 means every planned run completed),
+    and no run after it may start -- with or without a trace driver, with or without a run space."""
+    from vt import cliharness, lib
+    from vt.memtrace import MemTrace
+
+    lib.register()
+    cliharness.install()
+    if not with_run_space:
+        n = 1
+    nodes = [{"processor": lib.SrcV, "parameters": {}}, {"processor": lib.OpAdd, "parameters": {}}, {"processor": _op_exit(), "parameters": {}}, {"processor": lib.Snk, "parameters": {}}]
+    cfg: Dict[str, Any] = {"pipeline": {"nodes": nodes}}
+    ctx: Dict[str, Any] = {"addend": addend}
+    if with_run_space:
+        cfg["run_space"] = {"blocks": [{"mode": "by_position", "context": {"value": [xs[i] for i in range(n)], "quit": [1 if quits[i] else 0 for i in range(n)]}}]}
+    else:
+        ctx.update({"value": xs[0], "quit": 1 if quits[0] else 0})
+    tr = MemTrace() if traced else None
+    lib.reset_log()
+    try:
+        rc = cliharness.run_cli(cfg, trace=tr, ctx=ctx)
+    except SystemExit as e:
+        rc = e.code if isinstance(e.code, int) else 1
+    log = list(lib.LOG)
+    first = None
+    for i in range(n):
+        if quits[i]:
+            first = i
+            break
+    exp_log = []
+    for i in range(n):
+        exp_log += [("SrcV", {"value": xs[i]}), ("OpAdd", {"addend": addend}), ("OpExit", {"quit": 1 if quits[i] else 0})]
+        if quits[i]:
+            break
+        exp_log.append(("Snk", {"tag": 0, "data": xs[i] + addend}))
+    if not (log == exp_log):
+        return Fail("C17.P2:launch-execution", "components executed %r, planned %r" % (log, exp_log))
+    if first is None and rc != 0:
+        return Fail("C17.P2:exit-code:all-completed", "every planned run completed, exit code %r" % (rc,))
+    if first is not None and rc == 0:
+        return Fail("C17.P2:exit-0-although-a-run-aborted", "run %d of %d died with SystemExit(7) (%s trace driver, %s run space): exit code 0" % (first, n, "with" if traced else "no", "with" if with_run_space else "no"))
+    return True
+
+
 def obligations(tier: str) -> List[Ob]:
     from vt import cliharness
 
@@ -200,6 +269,9 @@ def obligations(tier: str) -> List[Ob]:
         else:
             params.append((v, {}))
     return [
+        Ob("C17.P2", lambda _p: _p2, lambda _p, a: C04._wrap(_p2_body(2 if a["two_runs"] else 1, [a["q0"], a["q1"]], a["traced"], a["with_run_space"], [a["x0"], a["x1"]], a["addend"])), budget=600, per_path=120,
+           bound="a node calling sys.exit(7) in run 0 or 1 (flags), 1-2 planned runs, with/without trace driver, with/without run space (flags), values symbolic",
+           targets=["semantiva/cli/__init__.py:_run"], stubs=list(STUBS) + cliharness.STUBS),
         Ob("C17.P1", _make_p1, _replay_p1, params=params, budget=1200, per_path=120,
            bound="8 configuration variants (the two executable ones sharded by --validate/--dry-run/--run-space-dry-run/number of runs; the rejected ones with those flags symbolic too); symbolic: run space inline or through --run-space-file, --run-space-dry-run, --context key present, run-space key present, 1 or 2 planned runs, failing flags per run, YAML dry_run present/value, YAML max_runs present/value (0..3), --run-space-max-runs present/value (0..3), context and payload values",
            targets=["semantiva/cli/__init__.py:_run", "semantiva/inspection/builder.py:build_pipeline_inspection", "semantiva/inspection/validator.py:validate_pipeline", "semantiva/execution/run_space.py:expand_run_space", "semantiva/configurations/load_pipeline_from_yaml.py:parse_pipeline_config"], stubs=list(STUBS) + cliharness.STUBS + ["injective-hash model for json/hashlib/uuid (identity values are not the subject here; keeps run values symbolic)"]),
